@@ -11,8 +11,9 @@
      quad_valid d0 a    : additionally x, y < 2^level (quadkey: finding F4);
      compact_valid d0 a : x, y, level >= 0, dimensions fixed (the loader refuses dimension layers here);
      sql_valid d0 a     : dimensions fixed (same reason);
-     fop_ok V n o       : all addresses of operation o satisfy V, stored payloads are n pixels with 24 bit colours
-                          (one tile size per cache: single-colour payloads are canonical per colour). *)
+     fop_ok V n o       : all addresses of operation o satisfy V, stored payloads are RGB or RGBA tiles of n pixels
+                          (channel count, then the pixel values; one tile size per cache: single-colour payloads
+                          are canonical per colour tuple, fully transparent colours included). *)
 From Coq Require Import ZArith List Bool String.
 Import ListNotations.
 From MP Require Import Base Gen_path Gen_compact Gen_sqlbatch CacheMap CacheMap_proofs CachePath_proofs.
